@@ -14,7 +14,7 @@ CLAIMED = {
    note="Reduced scope. Outside: agreement of reported residual figures with an independent recomputation (floating-point norms)." + _TB, design="DESIGN.md §3 C03, §6"),
  "C04": dict(text=_KANI + "Runs the REAL generic Solver::solve main loop with stub components returning arbitrary values and the REAL DefaultInfo verdict logic: for all numerical behaviours the loop returns, in a terminal status, within max_iter iterations and max_iter+2 passes, stopping at the first check after the time limit. Plus: dimension checks reject exactly the inconsistent inputs.",
    note="Bounds max_iter<=2 quick / <=4 thorough. Outside: panics/hangs inside the numeric components for extreme data; wall clock. Stubs: Timers methods, RandomState::new, barrier search cut to 3 evaluations." + _TB, design="DESIGN.md §3 C04, §6"),
- "C05": dict(text=_KANI + "Decides only ONE normalisation that turns equivalent inputs into the identical internal problem: a full symmetric P is reduced to the canonical upper triangle and a triu P is taken as is (CscMatrix::to_triu / is_triu, all 2x2 patterns, symbolic values).",
+ "C05": dict(text=_KANI + "Decides two mechanisms behind 'equivalent formulations agree': a full symmetric P is reduced to the canonical upper triangle and a triu P is taken as is (CscMatrix::to_triu / is_triu, all 2x2 patterns, symbolic values); and the equilibrated internal data are exactly the recorded scaling c D P D, E A D, c D q, E b of the user's data (GF(13), incl. the scalar rectification of second-order cones), so equilibration on/off present the same problem.",
    note="Cone collapsing (split/merged nonnegative cones) is NOT decided (Vec<enum> output: intractable, DESIGN 6.2.15). Everything else in C05 (permutations, scaling, backends, threads, concurrency, repeatability) compares end-to-end floating-point runs: NOT decided." + _TB, design="DESIGN.md §3 C05, §6"),
  "C07": dict(text=_KANI + 'Decides that the tau/kappa step length lies in [0,1] and is the exact distance to the boundary, that NN/SOC step lengths lie in [0, alpha_max] for every f64, and - by running the real main loop with a POISONED iteration budget - that nothing but the termination check reads the remaining budget and every step taken under dual scaling was the one last accepted by the barrier test.',
    note="Reduced scope. Outside: strict interiority after a step for SOC/exp/pow/PSD; tau',kappa'>0 after the step (two roundings of a product). The clock is a model validated natively against the real Timers (tv_timers)." + _TB, design="DESIGN.md §3 C07, §6"),
